@@ -306,7 +306,7 @@ func (v *Verifier) verifyFunc(c *Contract) *FuncReport {
 				x.smt.curOwner = rp.blk.Index
 			}
 			x.reach = rp.reach
-			t, err := x.evalSpec(e.E, x.specEnvAt(nil, rp))
+			t, err := x.evalSpec(e.E, x.specEnvAt(rp.blk, rp))
 			x.smt.curOwner = -1
 			if err != nil {
 				x.specError(e, err)
